@@ -512,11 +512,259 @@ theorem fuel_mono (ty : Int) : ∀ (f : Nat) (toks : List Tok) (flag : Bool) (ro
   | zero => intro toks flag root cur rows r h; simp [parseSubtree] at h
   | succ f ih =>
     intro toks flag root cur rows r h
+    generalize hg : f + 1 = g at ih ⊢
     cases toks with
-    | nil => simpa [parseSubtree] using h
+    | nil => simp [parseSubtree] at h ⊢; exact h
     | cons x t =>
-      cases x <;> cases flag <;> simp only [parseSubtree, bind_ok_iff] at h ⊢
-      all_goals sorry
+      cases x <;> cases flag <;>
+        simp only [parseSubtree, Bool.false_eq_true, if_true, if_false, bind_ok_iff] at h ⊢
+      all_goals first
+        | exact h
+        | (obtain ⟨a, h1, h2⟩ := h; exact ⟨a, h1, ih _ _ _ _ _ _ h2⟩)
+        | (obtain ⟨a, h1, r1, h3, t2, h5, h6⟩ := h
+           exact ⟨a, h1, r1, ih _ _ _ _ _ _ h3, t2, h5, ih _ _ _ _ _ _ h6⟩)
+        | (obtain ⟨r1, h3, t2, h5, h6⟩ := h
+           exact ⟨r1, ih _ _ _ _ _ _ h3, t2, h5, ih _ _ _ _ _ _ h6⟩)
+        | (split at h
+           · rename_i hw
+             rw [if_pos hw]
+             rw [bind_ok_iff] at h ⊢
+             obtain ⟨a, h1, h2⟩ := h
+             exact ⟨a, h1, ih _ _ _ _ _ _ h2⟩
+           · cases h)
+
+theorem fuel_mono_add (ty : Int) (k : Nat) : ∀ (f : Nat) (toks : List Tok) (flag : Bool) (root cur : Int)
+    (rows : List Row) (r : List Tok × List Row),
+    parseSubtree ty f toks flag root cur rows = .ok r → parseSubtree ty (f + k) toks flag root cur rows = .ok r := by
+  induction k with
+  | zero => intro f toks flag root cur rows r h; exact h
+  | succ k ih =>
+    intro f toks flag root cur rows r h
+    exact fuel_mono ty (f + k) toks flag root cur rows r (ih f toks flag root cur rows r h)
+
+/-- the call did not stop at a closing bracket: it failed or ran out of input -/
+def Fail (r : Except Err (List Tok × List Row)) : Prop := ∀ t rows, r = .ok (t, rows) → t = []
+
+@[simp] theorem fail_error (e : Err) : Fail (.error e) := by intro t rows h; cases h
+@[simp] theorem fail_nil (rows : List Row) : Fail (.ok ([], rows)) := by intro t rows h; cases h; rfl
+
+theorem fail_parse_nil (ty : Int) (f : Nat) (flag : Bool) (root cur : Int) (rows : List Row) :
+    Fail (parseSubtree ty f [] flag root cur rows) := by
+  cases f <;> simp [parseSubtree]
+
+theorem fail_of_ge (ty : Int) (k : Nat) {f : Nat} {toks : List Tok} {flag : Bool} {root cur : Int} {rows : List Row}
+    (h : Fail (parseSubtree ty (f + k) toks flag root cur rows)) :
+    Fail (parseSubtree ty f toks flag root cur rows) := by
+  intro t rows' h'
+  exact h t rows' (fuel_mono_add ty k f toks flag root cur rows _ h')
+
+/-- a recursive call that fails makes the enclosing split fail -/
+theorem fail_bind (x : Except Err (List Tok × List Row)) (k : List Tok → List Tok × List Row → Except Err (List Tok × List Row))
+    (h : Fail x) : Fail (x >>= fun r => expectRp r.1 >>= fun t2 => k t2 r) := by
+  cases x with
+  | error e => simp
+  | ok r =>
+    obtain ⟨t, rows⟩ := r
+    have := h t rows rfl
+    subst this
+    simp [expectRp]
+
+theorem prefix_append_cases {α : Type} {q a b : List α} (h : q <+: a ++ b) :
+    q <+: a ∨ ∃ t, q = a ++ t ∧ t <+: b := by
+  induction a generalizing q with
+  | nil => right; exact ⟨q, by simp, by simpa using h⟩
+  | cons x a ih =>
+    rw [List.cons_append, List.prefix_cons_iff] at h
+    rcases h with rfl | ⟨t, rfl, ht⟩
+    · left; exact List.nil_prefix
+    · rcases ih ht with h1 | ⟨s, rfl, hs⟩
+      · left; exact (List.prefix_cons_inj x).2 h1
+      · right; exact ⟨s, rfl, hs⟩
+
+theorem prefix_head {t l : List Tok} (h : t <+: l) (hl : l.head? ≠ some .bad) : t.head? ≠ some .bad := by
+  cases t with
+  | nil => simp
+  | cons x t =>
+    obtain ⟨s, rfl⟩ := h
+    simpa using hl
+
+theorem fail_point (ty : Int) (p : Pt) (q : List Tok) (hq : q <+: ptToks p) (f : Nat) (root cur : Int)
+    (rows : List Row) : Fail (parseSubtree ty f q true root cur rows) := by
+  apply fail_of_ge ty 3
+  simp only [ptToks, List.prefix_cons_iff, List.prefix_nil] at hq
+  rcases hq with rfl | ⟨_, rfl, rfl | ⟨_, rfl, rfl | ⟨_, rfl, rfl | ⟨_, rfl, rfl | ⟨_, rfl, rfl | ⟨_, rfl, rfl⟩⟩⟩⟩⟩⟩ <;>
+    simp [parseSubtree, parseNode, expectRp, adv_cons2]
+
+theorem fail_chain (ty : Int) : ∀ (pts : List Pt) (q : List Tok), q <+: pts.flatMap ptToks →
+    ∀ (f : Nat) (root cur : Int) (rows : List Row), Fail (parseSubtree ty f q true root cur rows)
+  | [], q, hq, f, root, cur, rows => by
+    simp at hq; subst hq; exact fail_parse_nil ty f true root cur rows
+  | p :: ps, q, hq, f, root, cur, rows => by
+    rw [List.flatMap_cons] at hq
+    rcases prefix_append_cases hq with h | ⟨t, rfl, ht⟩
+    · exact fail_point ty p q h f root cur rows
+    · apply fail_of_ge ty 2
+      rw [point_step ty f p t root cur rows (prefix_head ht (by simpa using flatMap_head ps [] (by simp)))]
+      exact fail_chain ty ps t ht f root _ _
+
+theorem altsToks_head' (alts : List Branch) : (altsToks alts).head? ≠ some .bad := by
+  rcases altsToks_shape alts with ⟨h, _⟩ | ⟨v, t, h⟩ | ⟨t, h⟩ <;> simp [h]
+
+theorem branchToks_head' (b : Branch) : (branchToks b).head? ≠ some .bad := by
+  rcases branchToks_shape b with ⟨h, _⟩ | ⟨v, t, h⟩ <;> simp [h]
+
+theorem lp_true_step (ty : Int) (f : Nat) (t : List Tok) (root cur : Int) (rows : List Row)
+    (ht : t.head? ≠ some .bad) :
+    parseSubtree ty (f + 1) (.lp :: t) true root cur rows = parseSubtree ty f t false root cur rows := by
+  simp [parseSubtree, adv_cons, ht]
+
+theorem lp_false_step (ty : Int) (f : Nat) (t : List Tok) (root cur : Int) (rows : List Row)
+    (ht : t.head? ≠ some .bad) :
+    parseSubtree ty (f + 1) (.lp :: t) false root cur rows
+      = (parseSubtree ty f t true cur cur rows >>= fun r => expectRp r.1 >>= fun t2 =>
+          parseSubtree ty f t2 true root cur r.2) := by
+  simp [parseSubtree, adv_cons, ht]
+
+theorem bar_false_step (ty : Int) (f : Nat) (t : List Tok) (root cur : Int) (rows : List Row) :
+    parseSubtree ty (f + 1) (.bar :: t) false root cur rows
+      = (parseSubtree ty f (.bar :: t) true cur cur rows >>= fun r => expectRp r.1 >>= fun t2 =>
+          parseSubtree ty f t2 true root cur r.2) := by
+  simp [parseSubtree]
+
+theorem bar_true_step (ty : Int) (f : Nat) (t : List Tok) (root cur : Int) (rows : List Row)
+    (ht : t.head? ≠ some .bad) :
+    parseSubtree ty (f + 1) (.bar :: t) true root cur rows = parseSubtree ty f t true root root rows := by
+  simp [parseSubtree, adv_cons, ht]
+
+/-- a cut inside `( alt | … )` -/
+theorem fail_split (ty : Int) (alts : List Branch)
+    (hA : ∀ q, q <+: altsToks alts → ∀ (f : Nat) (root cur : Int) (rows : List Row),
+      Fail (parseSubtree ty f q true root cur rows))
+    (t' : List Tok) (ht' : t' <+: altsToks alts ++ [.rp]) (f : Nat) (root cur : Int) (rows : List Row) :
+    Fail (parseSubtree ty f (.lp :: t') true root cur rows) := by
+  have main : ∀ t', t' <+: altsToks alts → Fail (parseSubtree ty f (.lp :: t') true root cur rows) := by
+    intro t' h
+    apply fail_of_ge ty 2
+    rw [lp_true_step ty (f + 1) t' root cur rows (prefix_head h (altsToks_head' alts))]
+    rcases altsToks_shape alts with ⟨he, _⟩ | ⟨v, s, he⟩ | ⟨s, he⟩
+    · rw [he] at h; simp at h; subst h; exact fail_parse_nil ty _ _ _ _ _
+    · have hA' := hA
+      rw [he] at h hA'
+      simp only [List.prefix_cons_iff] at h
+      rcases h with rfl | ⟨_, rfl, rfl | ⟨_, rfl, h3⟩⟩
+      · exact fail_parse_nil ty _ _ _ _ _
+      · rw [lp_false_step ty f [] root cur rows (by simp)]
+        exact fail_bind _ _ (fail_parse_nil ty _ _ _ _ _)
+      · rename_i t3
+        rw [lp_false_step ty f _ root cur rows (by simp)]
+        apply fail_bind
+        have := hA' (.lp :: .float v :: t3) (by simp [List.prefix_cons_iff, h3]) (f + 1) cur cur rows
+        rw [lp_true_step ty f _ cur cur rows (by simp), float_flag] at this
+        exact this
+    · have hA' := hA
+      rw [he] at h hA'
+      simp only [List.prefix_cons_iff] at h
+      rcases h with rfl | ⟨t3, rfl, h3⟩
+      · exact fail_parse_nil ty _ _ _ _ _
+      · rw [bar_false_step]
+        apply fail_bind
+        exact hA' (.bar :: t3) (by simp [List.prefix_cons_iff, h3]) f cur cur rows
+  rcases prefix_append_cases ht' with h | ⟨s, rfl, hs⟩
+  · exact main t' h
+  · simp only [List.prefix_cons_iff, List.prefix_nil] at hs
+    rcases hs with rfl | ⟨_, rfl, rfl⟩
+    · exact main _ (by simp)
+    · apply fail_of_ge ty (needL alts + 2)
+      have h2 : f + (needL alts + 2) = (f + needL alts) + 2 := by omega
+      rw [h2, split_step ty alts (f + needL alts) [] root cur rows (by simp) (sim_alts ty alts) (by omega)]
+      exact fail_parse_nil ty _ _ _ _ _
+
+mutual
+theorem fail_branch (ty : Int) : ∀ (b : Branch) (q : List Tok), q <+: branchToks b →
+    ∀ (f : Nat) (root cur : Int) (rows : List Row), Fail (parseSubtree ty f q true root cur rows)
+  | .leaf pts, q, hq, f, root, cur, rows => by
+    simp only [branchToks] at hq
+    exact fail_chain ty pts q hq f root cur rows
+  | .fork p pts alts, q, hq, f, root, cur, rows => by
+    have h1 : branchToks (.fork p pts alts)
+        = (p :: pts).flatMap ptToks ++ (.lp :: (altsToks alts ++ [.rp])) := by
+      simp [branchToks]
+    rw [h1] at hq
+    rcases prefix_append_cases hq with h | ⟨t, rfl, ht⟩
+    · exact fail_chain ty (p :: pts) q h f root cur rows
+    · apply fail_of_ge ty (2 * (p :: pts).length)
+      rw [chain_run ty (p :: pts) f t root cur rows (prefix_head ht (by simp))]
+      rw [List.prefix_cons_iff] at ht
+      rcases ht with rfl | ⟨t', rfl, ht'⟩
+      · exact fail_parse_nil ty _ _ _ _ _
+      · exact fail_split ty alts (fun q hq f root cur rows => fail_alts ty alts q hq f root cur rows)
+          t' ht' f root _ _
+theorem fail_alts (ty : Int) : ∀ (alts : List Branch) (q : List Tok), q <+: altsToks alts →
+    ∀ (f : Nat) (root cur : Int) (rows : List Row), Fail (parseSubtree ty f q true root cur rows)
+  | [], q, hq, f, root, cur, rows => by
+    simp [altsToks] at hq; subst hq; exact fail_parse_nil ty _ _ _ _ _
+  | [a], q, hq, f, root, cur, rows => by
+    simp only [altsToks] at hq
+    exact fail_branch ty a q hq f root cur rows
+  | a :: b :: bs, q, hq, f, root, cur, rows => by
+    have h1 : altsToks (a :: b :: bs) = branchToks a ++ (.bar :: altsToks (b :: bs)) := by simp [altsToks]
+    rw [h1] at hq
+    rcases prefix_append_cases hq with h | ⟨t, rfl, ht⟩
+    · exact fail_branch ty a q h f root cur rows
+    · apply fail_of_ge ty (need a + 1 + seq a)
+      have h2 : f + (need a + 1 + seq a) = (f + need a + 1) + seq a := by omega
+      rw [h2, sim_branch ty a (f + need a + 1) t root cur rows (prefix_head ht (by simp)) (by omega)]
+      rw [List.prefix_cons_iff] at ht
+      rcases ht with rfl | ⟨t', rfl, ht'⟩
+      · exact fail_parse_nil ty _ _ _ _ _
+      · rw [bar_true_step ty _ t' root _ _ (prefix_head ht' (altsToks_head' (b :: bs)))]
+        exact fail_alts ty (b :: bs) t' ht' _ root root _
+end
+
+theorem parseTop_hdr (label : SwcText.Str) (T : List Tok) (f : Nat)
+    (hl : upper label = "AXON".toList ∨ upper label = "DENDRITE".toList) (hT : T.head? ≠ some .bad) :
+    parseTop (f + 1) (.lp :: .literal label :: .rp :: T) []
+      = (skipComments f T >>= fun t4 => expectLp t4 >>= fun t5 =>
+          parseSubtree (labelType label) f t5 true (-1) (-1) [] >>= fun r => parseTop f r.1 r.2) := by
+  rw [parseTop]
+  simp only [adv_cons2 _ _ _ (show Tok.literal label ≠ .bad by simp), ok_bind]
+  rw [if_pos (label_cond label hl)]
+  simp only [adv_cons2 _ _ _ (show Tok.rp ≠ .bad by simp), ok_bind, expectRp, adv_cons _ _ hT, labelType]
+
+theorem convertWith_trunc (label : SwcText.Str) (b : Branch) (T : List Tok) (f : Nat)
+    (hl : upper label = "AXON".toList ∨ upper label = "DENDRITE".toList) (hb : NonEmpty b)
+    (hT : T <+: branchToks b) :
+    ∃ er, convertWith (f + 2) (.lp :: .lp :: .literal label :: .rp :: T) = .error er := by
+  obtain ⟨v, s, h⟩ := nonEmpty_shape b hb
+  have hfail := fail_branch (labelType label) b T hT (f + 2) (-1) (-1) []
+  have hhd : T.head? ≠ some .bad := prefix_head hT (branchToks_head' b)
+  have h0 : convertWith (f + 2) (.lp :: .lp :: .literal label :: .rp :: T)
+      = (skipComments (f + 1) T >>= fun t4 => expectLp t4 >>= fun t5 =>
+          parseSubtree (labelType label) (f + 1) t5 true (-1) (-1) [] >>= fun r => parseTop (f + 1) r.1 r.2)
+        >>= fun r => (match r.1 with
+          | [] => .error .eof
+          | .rp :: _ => do
+            let _ ← adv r.1
+            pure r.2
+          | _ => .error .tokenType) := by
+    simp only [convertWith, skipComments, ok_bind, expectLp, adv_cons2 _ _ _ (show Tok.lp ≠ .bad by simp),
+      parseTop_hdr label T (f + 1) hl hhd]
+  rw [h0]
+  rw [h] at hT
+  simp only [List.prefix_cons_iff] at hT
+  rcases hT with rfl | ⟨_, rfl, rfl | ⟨_, rfl, hT2⟩⟩
+  · simp [skipComments, expectLp]
+  · simp [skipComments, expectLp, parseSubtree, parseTop]
+  · rename_i T2
+    rw [lp_true_step _ _ _ _ _ _ (by simp), float_flag] at hfail
+    simp only [skipComments, ok_bind, expectLp, adv_cons2 _ _ _ (show Tok.float v ≠ .bad by simp)]
+    cases hx : parseSubtree (labelType label) (f + 1) (.float v :: T2) true (-1) (-1) [] with
+    | error e => simp
+    | ok r =>
+      obtain ⟨t, rows⟩ := r
+      have := hfail t rows hx
+      subst this
+      simp [parseTop]
 
 --TRUNC--
 /-- **a document that ends prematurely is rejected** (partial: stated for the token stream cut anywhere
@@ -526,7 +774,18 @@ theorem truncation_rejected_partial (label : SwcText.Str) (b : Branch) (k : Nat)
     (hl : upper label = "AXON".toList ∨ upper label = "DENDRITE".toList) (hb : NonEmpty b)
     (hk : k < (branchToks b ++ [Tok.rp]).length) :
     ∃ er, convertTokens ([.lp, .lp, .literal label, .rp] ++ (branchToks b ++ [Tok.rp]).take k) = .error er := by
-  sorry
+  have hpre : (branchToks b ++ [Tok.rp]).take k <+: branchToks b ++ [Tok.rp] := List.take_prefix _ _
+  have hT : (branchToks b ++ [Tok.rp]).take k <+: branchToks b := by
+    rcases prefix_append_cases hpre with h | ⟨s, hs, hs'⟩
+    · exact h
+    · simp only [List.prefix_cons_iff, List.prefix_nil] at hs'
+      rcases hs' with rfl | ⟨_, rfl, rfl⟩
+      · rw [hs]; simp
+      · have := congrArg List.length hs
+        rw [List.length_take] at this
+        omega
+  rw [convertTokens_eq _ (by simp)]
+  exact convertWith_trunc label b _ _ hl hb hT
 
 /-! ## the lexer -/
 
